@@ -14,7 +14,49 @@ From C15 Require Import Spec.
 Definition covered (cfg : config) : bool :=
   schemes_avoid_class matrix_tables cfg && rename_closed matrix_tables cfg.
 
+(** The deprecated-replacement clause, on the documents where it can be read off directly: under
+    a plain preset (strict or compat, nothing else configured), a lone `font` element carrying
+    `color` comes back as a `span` carrying `data-mx-color` with the same value, and a lone
+    `strike` comes back as `s`. *)
+Definition is_plain_preset (c : config) : bool :=
+  is_some (c_mode c) &&
+  match c_replace_elements c, c_remove_elements c, c_ignore_elements c, c_allow_elements c,
+        c_replace_attrs c, c_remove_attrs c, c_allow_attrs c with
+  | None, None, None, None, None, None, None =>
+      match c_deny_schemes c, c_allow_schemes c, c_remove_classes c, c_allow_classes c, c_max_depth c with
+      | None, None, None, None, None => true
+      | _, _, _, _, _ => false
+      end
+  | _, _, _, _, _, _, _ => false
+  end.
+
+Definition plain_attr (name : str) (a : attr) : bool :=
+  str_eqb (a_name a) name && str_eqb (a_pfx a) [] && str_eqb (a_ns a) [].
+
+Definition deprecated_ok (cfg : config) (input once : forest) : bool :=
+  if is_plain_preset cfg then
+    match input with
+    | [Elem ns name attrs _] =>
+        if str_eqb name s!"font" then
+          match find (plain_attr s!"color") attrs with
+          | Some a =>
+              match once with
+              | [Elem _ name' attrs' _] =>
+                  str_eqb name' s!"span" &&
+                  existsb (fun b => plain_attr s!"data-mx-color" b && str_eqb (a_val b) (a_val a)) attrs'
+              | _ => false
+              end
+          | None => true
+          end
+        else if str_eqb name s!"strike" then
+          match once with [Elem _ name' _ _] => str_eqb name' s!"s" | _ => false end
+        else true
+    | _ => true
+    end
+  else true.
+
 Definition spec_ok (cfg : config) (input once twice : forest) (string_idem : bool) : bool :=
+  deprecated_ok cfg input once &&
   (* sanitizing the same document object twice equals sanitizing it once *)
   (negb (covered cfg) || forest_eqb twice once)
   (* clean documents come back unchanged — all configurations *)
